@@ -15,7 +15,7 @@ CLAIM = {
             "`in`/`contains` are converse and test array membership, substring and member name; `=~` is a full match with the literal's flags; `<>` equals `!=`; comparison "
             "with undefined equals the negated existence test. Alias spellings (and/or/not, nil/none/Null/None/Nil, True/False, missing, missing root, bare names) are lexer/"
             "parser facts: they are tied by compiling both spellings and comparing the implementation's compiled ASTs and results; the model is tied to the implementation "
-            "with filter contexts on every case.",
+            "with filter contexts on every case. Character level: alias_and/or/not/nil/true/false/undefined - each pair of spellings is read by the lexer model as the same parser token at any word boundary (also directly before a parenthesis).",
     "note": "Trusted: Lean kernel; model JP.Query; alias/spelling equivalences are decided by AST equality of the two compilations on the implementation (the lexer and parser "
             "are not modelled in Lean); Python re for the `=~` oracle on the generated dialect.",
     "technique": "Lean 4 theorems on the extension constructs of the evaluator model + differential correspondence + alias-vs-standard AST comparison",
@@ -32,6 +32,8 @@ ALIASES = [
     ("$[?@.a == nil]", "$[?@.a == null]"), ("$[?@.a == none]", "$[?@.a == null]"), ("$[?@.a == Nil]", "$[?@.a == null]"), ("$[?@.a == None]", "$[?@.a == null]"),
     ("$[?@.a == Null]", "$[?@.a == null]"), ("$[?@.a == True]", "$[?@.a == true]"), ("$[?@.a == False]", "$[?@.a == false]"),
     ("$[?@.a == missing]", "$[?@.a == undefined]"), ("$[?@.a != missing]", "$[?@.a != undefined]"),     ("$..[?@.a and @.b]", "$..[?@.a && @.b]"), ("$[?@.xs[?@ == 1 or @ == 2]]", "$[?@.xs[?@ == 1 || @ == 2]]"), ("$[0, ?not @.a]", "$[0, ?!@.a]"),
+    ("$[?not(@.a)]", "$[?!(@.a)]"), ("$[?@.a and(@.b)]", "$[?@.a &&(@.b)]"), ("$[?(@.a)or(@.b)]", "$[?(@.a)||(@.b)]"), ("$[?not(@.a == 1)and not(@.b)]", "$[?!(@.a == 1)&&!(@.b)]"),
+    ("$[?@.a==nil]", "$[?@.a==null]"), ("$[?nil==@.a]", "$[?null==@.a]"), ("$[?@.a in [True,None]]", "$[?@.a in [true,null]]"), ("$[?count(@.*) == 1 and not(match(@.s, 'a'))]", "$[?count(@.*) == 1 && !(match(@.s, 'a'))]"),
 ]
 SEMANTIC = [  # (query, equivalent query)
     ("$[?@.a <> 1]", "$[?@.a != 1]"), ("$[?@.a <> @.b]", "$[?@.a != @.b]"), ("$[?@.a <> undefined]", "$[?@.a != undefined]"), ("$..[?@ <> 'a']", "$..[?@ != 'a']"),
